@@ -332,6 +332,11 @@ func randSMString(r *rand.Rand) string {
 	n := r.IntN(8)
 	var sb strings.Builder
 	for i := 0; i < n; i++ {
+		if r.IntN(8) == 0 {
+			// long runs without a line break: a line break may sit at any offset of a long chunk (16, 32, 64 ... bytes in)
+			sb.WriteString(strings.Repeat("x", r.IntN(70)))
+			continue
+		}
 		sb.WriteString(fw.Pick(r, pieces))
 	}
 	// chunks may end in a lone CR (and may be exactly "\r"); genSMHistory keeps an LF from directly following it
